@@ -17,7 +17,7 @@ CHECKS = {
     "C08": eng(Q(8, 3000), Q(16, 40000, timeout=3000)),
     "C09": eng(Q(8, 2400), Q(16, 30000, timeout=3000)),
     "C10": eng(Q(8, 3000), Q(16, 40000, timeout=3000)),
-    "C11": eng(Q(4, 500), Q(16, 8000, timeout=3000), gogc=1,
+    "C11": eng(Q(8, 500), Q(16, 8000, timeout=3000), gogc=1,
                assumptions=["the runtime type descriptor field PtrBytes is the oracle for pointer-freeness", "collectability is judged by finalizers within 12 GC cycles; a shortfall counts only if it reproduces three times in a row"]),
     "C12": eng(Q(4, 400), Q(16, 10000, timeout=3000), inproc=[1, 2],
                assumptions=["Go randomises map iteration per range statement and per process; non-determinism that needs a particular hash seed is found only with luck"],
